@@ -273,16 +273,22 @@ StepEnd ==
     /\ phase' = "ctl"
     /\ UNCHANGED <<todo, ran, cur, isFin, inRun, nctl>>
 
+CrashAny     == \E h \in Ids : Crash(h)
+BounceAny    == \E h \in Ids : Bounce(h)
+TurnBeginAny == \E h \in Ids : TurnBegin(h)
+EvSampleAny  == \E t \in {"m", "t"} : EvSample(t)
+EvFinAny     == \E t \in {"m", "t"} : EvFin(t)
+
 Next ==
     \/ RegisterAny
-    \/ \E h \in Ids : Crash(h)
-    \/ \E h \in Ids : Bounce(h)
+    \/ CrashAny
+    \/ BounceAny
     \/ RunBegin
     \/ RunEnd
     \/ StepBegin
-    \/ \E h \in Ids : TurnBegin(h)
-    \/ \E t \in {"m", "t"} : EvSample(t)
-    \/ \E t \in {"m", "t"} : EvFin(t)
+    \/ TurnBeginAny
+    \/ EvSampleAny
+    \/ EvFinAny
     \/ StepPanic
     \/ TurnEnd
     \/ StepEnd
